@@ -119,7 +119,7 @@ let err_str = function
   | ErrRepeatedKey -> "ErrRepeatedKey" | ErrInvalidParameter -> "ErrInvalidParameter"
   | ErrRand -> "ErrRand" | ErrBadFrame -> "ErrBadFrame" | ErrOverflow -> "ErrOverflow"
   | ErrBxCorrupt n -> "ErrBxCorrupt:" ^ string_of_n n | ErrBxLength -> "ErrBxLength"
-  | ErrIO -> "ErrIO" | Unmodelled -> "Unmodelled" | Panic n -> "Panic:" ^ string_of_n n
+  | ErrIO -> "ErrIO" | ErrPunctuated -> "ErrPunctuated" | Unmodelled -> "Unmodelled" | Panic n -> "Panic:" ^ string_of_n n
 
 
 let b01 b = if b then "1" else "0"
@@ -257,6 +257,13 @@ let ops : (string * (string list -> string)) list = [
         | BdData d -> "D:" ^ bytes_to_hex d
         | BdErr (d, x) -> "E:" ^ bytes_to_hex d ^ ":" ^ err_str x)
         (m_bxd_trace (enc_of e) (List.map nat_of_int (str_to_ints sizes)) src)) | _ -> failwith "args");
+  "ad_sched", (function [chk; segs; fin; sizes] ->
+      let src = { src_segs = segs_of segs; src_final = err_of fin } in
+      let ck = if chk = "none" then None else Some (z_of_int (int_of_string chk)) in
+      String.concat " " (List.map (function
+        | BdData d -> "D:" ^ bytes_to_hex d
+        | BdErr (d, x) -> "E:" ^ bytes_to_hex d ^ ":" ^ err_str x)
+        (m_ad_trace ck (List.map nat_of_int (str_to_ints sizes)) src)) | _ -> failwith "args");
   "pr_until", (function [segs; fin; lim] ->
       let src = { src_segs = segs_of segs; src_final = err_of fin } in
       (match m_pr_until (nat_of_int 100000) (nat_of_int (int_of_string lim)) src with
